@@ -65,6 +65,7 @@ type FuncSpec struct {
 	ModAll   bool // modifies *  (anything)
 	Loops    map[int]*LoopSpec
 	NoPanic  bool
+	NoPanicKinds map[string]bool // `nopanic idx slice`: only these kinds are obligations, the others stay assumptions (nil = all kinds)
 	Lossless bool
 	AllocBound SExpr
 	PanicOK  bool // panic-as-exit
@@ -777,6 +778,12 @@ func (ss *SpecSet) ParseSpecFile(file, pkgPath string) (err error) {
 			curF.AllocBound = mustExpr(file, lno, rest)
 		case "nopanic":
 			curF.NoPanic = true
+			if ks := strings.Fields(rest); len(ks) > 0 {
+				curF.NoPanicKinds = map[string]bool{}
+				for _, k := range ks {
+					curF.NoPanicKinds[k] = true
+				}
+			}
 		case "panic-as-exit":
 			curF.PanicOK = true
 		case "inline":
